@@ -174,15 +174,18 @@ def run(ctx):
     # ---- the handshake itself: nothing but the two hellos leaves in clear, also when the application calls send() while it is in flight
     hcases, houts, hlogs = [], {}, {}
     for i in range(ctx.scale(40, 600)):
-        cid = "hs%d-%s" % (i, "early-send" if i % 2 == 0 else "honest")
-        lines, outs, log = connlib.gen_handshake(real, rng, cid, "early-send" if i % 2 == 0 else "honest")
+        script = ("early-send", "honest", "rekey-attempt")[i % 3]
+        cid = "hs%d-%s" % (i, script)
+        lines, outs, log = connlib.gen_handshake(real, rng, cid, script)
         hcases.append(lines)
         houts[cid] = outs
         hlogs[cid] = log
-    connlib.run_recorded(ctx, hcases, houts, connlib.make_post_hs(post_fn), "Handshake(emissions)", RULE, lambda c, o: "early-send" in c[0])
+    connlib.run_recorded(ctx, hcases, houts, connlib.make_post_hs(post_fn), "Handshake(emissions)", RULE, lambda c, o: "early-send" in c[0] or "rekey-attempt" in c[0])
     for c in hcases:
         log = hlogs[core.case_id(c)]
         if connlib.sealing_monitor(c, log, ctx):
+            return
+        if connlib.key_stability_monitor(c, log, ctx):
             return
         nonce_monitor(c, log, ctx)
         if ctx.failures:
